@@ -1348,13 +1348,24 @@ rrul_fill_wly(echs_instant_t *restrict tgt, size_t nti, rrulsp_t rr)
 	if (wd_mask) {
 		unsigned int w = echs_scale_wday(srcsca, y, m, d);
 
-		/* duplicate the wd_mask so we can just right shift it
-		 * and wrap around the end of the week */
-		wd_mask |= wd_mask << 7U;
-		/* zap to current day so increments are relative to DTSTART */
-		wd_mask >>= w;
-		/* clamp wd_mask to exactly 7 days */
-		wd_mask &= 0b1111111U;
+		/* weeks start on monday, so zap to the monday of DTSTART's
+		 * week, this way INTERVAL will skip entire weeks, days
+		 * before DTSTART are weeded out later on */
+		if (d <= w - MON) {
+			/* that monday is in the previous month */
+			if (!--m) {
+				y--;
+				m = 12U;
+			}
+			d += echs_scale_ndim(srcsca, y, m);
+			if (UNLIKELY(d <= w - MON)) {
+				/* beyond the scale's range */
+				goto fin;
+			}
+		}
+		d -= w - MON;
+		/* make increments relative to monday */
+		wd_mask >>= MON;
 		/* calculate wd increments
 		 * i.e. a bitset of increments, 4bits per increment */
 		for (unsigned int i = 0U, j = 0U;
